@@ -29,7 +29,7 @@ inductive Sym where
   | add (a b : Sym)
   | mul (a b : Sym)
   | div (a b : Sym)
-deriving Repr, Inhabited, BEq
+deriving Repr, Inhabited, BEq, DecidableEq
 
 def Sym.mkAdd : Sym → Sym → Sym
   | .q a, .q b => .q (a + b)
@@ -101,7 +101,15 @@ def Ev.midinoteFromNote (e : Ev) : Option Rat := do
   let oct ← e.numD "octave" 5
   some (((note + gtr + root) / 12 + oct - 5) * 12 + 60)
 
-mutual
+/-- `e('midinote')` when `freq` is not consulted (an explicit `midinote`, `note` or `degree`). -/
+def Ev.midinoteNoFreq (e : Ev) : Option Sym :=
+  match e.get? "midinote" with
+  | some v => v.num?.map Sym.q
+  | Option.none =>
+    if e.has "note" then e.midinoteFromNote.map Sym.q
+    else if e.has "degree" then e.midinoteFromDegree.map Sym.q
+    else some (.q 60)
+
 /-- `e('freq')`. -/
 def Ev.freq (e : Ev) : Option Sym :=
   match e.get? "freq" with
@@ -113,15 +121,6 @@ def Ev.freq (e : Ev) : Option Sym :=
       some (.midicps (Sym.mkAdd m (.q c)))
     else if e.has "degree" then (e.midinoteFromDegree).map fun m => .midicps (.q m)
     else some (.midicps (.q 60))
-/-- `e('midinote')` when `freq` is not consulted (an explicit `midinote`, `note` or `degree`). -/
-def Ev.midinoteNoFreq (e : Ev) : Option Sym :=
-  match e.get? "midinote" with
-  | some v => v.num?.map Sym.q
-  | Option.none =>
-    if e.has "note" then e.midinoteFromNote.map Sym.q
-    else if e.has "degree" then e.midinoteFromDegree.map Sym.q
-    else some (.q 60)
-end
 
 /-- `_detuned_freq`: `freq * harmonic + detune`. -/
 def Ev.detunedFreq (e : Ev) : Option Sym := do
@@ -181,7 +180,7 @@ structure Desc where
   name : String
   controls : List String
   keepGate : Bool := false
-deriving Repr, Inhabited
+deriving Repr, Inhabited, DecidableEq
 
 def Desc.hasGate (d : Desc) : Bool := d.controls.contains "gate"
 
@@ -189,13 +188,13 @@ def Desc.hasGate (d : Desc) : Bool := d.controls.contains "gate"
 inductive Arg where
   | s (x : String)
   | n (x : Sym)
-deriving Repr, Inhabited, BEq
+deriving Repr, Inhabited, BEq, DecidableEq
 
 structure Msg where
   time : Rat
   cmd : String
   args : List Arg
-deriving Repr, Inhabited
+deriving Repr, Inhabited, DecidableEq
 
 /-- The value an explicitly present key contributes to a message. -/
 def V.arg? : V → Option Arg
@@ -211,21 +210,28 @@ def Ev.argOf (e : Ev) (k : String) : Option Arg :=
   | some v => v.arg?
   | Option.none => Option.none
 
-/-- `_get_msg_params` with a synth description: the controls (without `gate` unless kept) that the
-    event defines explicitly, in the order of the description. `play` has just stored the detuned
+/-- The control names a description offers to events (without `gate` unless kept). -/
+def Desc.paramControls (d : Desc) : List String :=
+  if d.hasGate && !d.keepGate then d.controls.filter (· != "gate") else d.controls
+
+/-- `[name, value, …]` for the names the event defines. `play` has just stored the detuned
     frequency `fq` under `freq`, so `freq` is always defined. -/
-def msgParamsDesc (d : Desc) (e : Ev) (fq : Sym) : Option (List Arg) :=
-  let names := if d.hasGate && !d.keepGate then d.controls.filter (· != "gate") else d.controls
-  names.foldr (fun nm acc =>
-    match acc with
+def paramsOf (e : Ev) (fq : Sym) : List String → Option (List Arg)
+  | [] => some []
+  | nm :: rest =>
+    match paramsOf e fq rest with
     | Option.none => Option.none
-    | some rest =>
-      if nm == "freq" then some (.s nm :: .n fq :: rest)
+    | some ps =>
+      if nm == "freq" then some (.s nm :: .n fq :: ps)
       else if e.has nm then
         match e.argOf nm with
-        | some a => some (.s nm :: a :: rest)
+        | some a => some (.s nm :: a :: ps)
         | Option.none => Option.none
-      else some rest) (some [])
+      else some ps
+
+/-- `_get_msg_params` with a synth description: the controls (without `gate` unless kept) that the
+    event defines explicitly, in the order of the description. -/
+def msgParamsDesc (d : Desc) (e : Ev) (fq : Sym) : Option (List Arg) := paramsOf e fq d.paramControls
 
 /-- `_default_msg_params` (no description for the instrument). -/
 def msgParamsDefault (e : Ev) (fq : Sym) : Option (List Arg) := do
@@ -244,7 +250,7 @@ structure World where
   lib : List Desc
   latency : Rat
   nextId : Nat := 1000
-deriving Repr, Inhabited
+deriving Repr, Inhabited, DecidableEq
 
 def World.desc? (w : World) (name : String) : Option Desc := w.lib.find? (·.name == name)
 
